@@ -15,7 +15,8 @@ CONSTANTS SimDepth,  \* 0: print every transition (exhaustive mode)
 VARIABLE hist
 
 \* no NOOP round trip is possible while an IDLE occupies the connection
-NoBarrier == \E i \in PendingOf("IDLE") : cmds[i].ph # "stopping"
+NoBarrier == \/ \E i \in PendingOf("IDLE") : cmds[i].ph # "stopping"
+             \/ SyncLit /\ \E i \in PendingOf("APPEND") : cmds[i].ph = ""
 
 Obs == [cstate |-> cstate,
         cmpmbox |-> ~SelPending,           \* the mailbox summary is compared only when no SELECT is in progress
@@ -32,7 +33,7 @@ Obs == [cstate |-> cstate,
 Log(act, s1, s2, n1, n2) ==
   hist' = Append(hist, [act |-> act, s1 |-> s1, s2 |-> s2, n1 |-> n1, n2 |-> n2, exp |-> Obs'])
 
-GenInit == Init /\ hist = <<[act |-> "Greet", s1 |-> greet, s2 |-> None, n1 |-> 0, n2 |-> 0, exp |-> Obs]>>
+GenInit == Init /\ hist = <<[act |-> "Greet", s1 |-> greet, s2 |-> IF SyncLit THEN "synclit" ELSE None, n1 |-> 0, n2 |-> 0, exp |-> Obs]>>
 
 GenStep ==
   \/ \E k \in Kinds : \E a \in ArgsOf(k) : Submit(k, a) /\ Log("Submit", k, a, 0, 0)
